@@ -7,7 +7,7 @@ pid, srcs, pats, header, req = sys.argv[1:6]
 out = ["(* %s *)" % header, req, ""]
 for src, pat in zip(srcs.split(","), pats.split(",,")):
   s = open("/verif/coq/" + src).read()
-  for m in re.finditer(r"^(?:Lemma|Theorem)\s+([\w']+)((?:\s+(?:\([^)]*\)|[\w']+))*)\s*:\s*(.*?)\.\s*\nProof", s, flags=re.S | re.M):
+  for m in re.finditer(r"^(?:Lemma|Theorem|Corollary)\s+([\w']+)((?:\s+(?:\([^)]*\)|[\w']+))*)\s*:\s*(.*?)\.\s*\nProof", s, flags=re.S | re.M):
     name, binders, stmt = m.group(1), m.group(2).strip(), " ".join(m.group(3).split())
     if not re.match(pat, name):
         continue
